@@ -126,6 +126,7 @@ json.dump(attrs, open(os.path.join(os.path.dirname(TABLE), 'canon_attrs.json'), 
 import importlib, ginsa.normalize as _N, ginsa.canon as _C
 importlib.reload(_N)
 out2 = {}
+iface = {}
 for dp, dn, fn in os.walk(root):
   for f in sorted(fn):
     if f.endswith('.py'):
@@ -141,6 +142,9 @@ for dp, dn, fn in os.walk(root):
         print('normal form of reference', mod, 'failed:', e)
         tree = ast.parse(open(p).read())
       out2[mod] = table_for(tree, mod)
+      iface[mod] = _C.interface_table(tree, mod)
 changed = sum(1 for m in out2 for q in out2[m] if out2[m][q] != out.get(m, {}).get(q))
 json.dump(out2, open(TABLE, 'w'), indent=0)
 print('functions whose fingerprints differ in normal form:', changed)
+json.dump(iface, open(os.path.join(os.path.dirname(TABLE), 'canon_iface.json'), 'w'), indent=0, sort_keys=True)
+print('interfaces:', sum(len(v) for v in iface.values()))
